@@ -1,2 +1,4 @@
 def run(ctx):
-    return ""
+    from . import kernel_proofs
+
+    return kernel_proofs.run(ctx, ["prepare", "grouped_sum_size", "grouped_max_nosize", "nanmax", "nanmin"], "C01")
